@@ -120,8 +120,11 @@ type feed struct {
 //go:norace
 func (f *feed) read(b []byte) (int, error) {
 	if f.fail {
+		// a read that fails after it has delivered bytes (io.Reader allows n > 0 together with an error, e.g. a
+		// truncated datagram): the bytes are in the buffer, the call failed
 		f.fail = false
-		return 0, ErrInjected
+		n := copy(b, f.next)
+		return n, ErrInjected
 	}
 	if len(f.next) > len(b) {
 		return 0, fmt.Errorf("verif: buffer too short")
